@@ -10,7 +10,8 @@
    the empty bus.  Fairness is never assumed silently: the liveness statements are given as a
    measure that every step of a named set of goroutines decreases, that no step increases, and
    that is positive only while one of those goroutines is enabled. *)
-From SC Require Import Base.Prelude Bus.Bus Bus.Pipe Bus.BusProofs Bus.PipeProofs Bus.BusHist Bus.PipeStages Bus.Res Bus.ResProofs.
+From SC Require Import Resource.Pull.
+From SC Require Import Base.Prelude Bus.Bus Bus.Pipe Bus.BusProofs Bus.PipeProofs Bus.BusHist Bus.PipeStages Bus.Res Bus.ResProofs Bus.PipeHeld Bus.PipeHeldProofs Bus.PipeHeldWf Bus.PipeHeldTerm Bus.ResTurnstile.
 
 (* ---- no send on a closed channel ---- *)
 (* no goroutine is ever blocked sending on a closed channel (which would panic at the close)
@@ -380,3 +381,182 @@ Example C10_nonvacuous_turnstile_wait : exists C,
   nth_error (rw C) 0 = Some (RDelHold 2) /\ nth_error (rw C) 1 = Some (RUpdSend 1) /\
   rstep true C (RPublish 0) = None /\ rdone C = 0%nat /\ rstep true C RRead = None.
 Proof. exact turnstile_wait_witness. Qed.
+
+(* ==== round 4: the filters of the Collection.Pull forwarder; the turnstile ==== *)
+
+(* ---- "a single-item subscription also ends when the item is removed", through the filters ----
+   The forwarder of Collection.Pull does not hand on every change: include, then - for a collection
+   with an equivalence - the comparison with the held map (Bus/PipeHeld.v = the loop body of the
+   shared model Resource/Pull.v: include_gen, held_step).  A subscription can only end without a cancel
+   through PullID seeing the REMOVE of its item, so the clause needs: a REMOVE of an item the
+   subscription can see is ALWAYS sent on.
+   C10_fwd_remove_forwarded: for every equivalence and include filter of the harness' families, every
+   held map that holds values only, and the REMOVE of an item whose old value passes the filter: the
+   forwarder sends exactly this REMOVE on (in particular when held has nothing for the id: updates-only
+   subscription, item never written since).
+   C10_fwd_keeps_held_some: that condition on held is an invariant of the loop over well-formed changes
+   (it holds after the seed loop: held_init_some), also along every schedule of the chain (fstep).
+   C10_fwd_history_remove_forwarded: over ANY history - any seeds, any number of well-formed changes
+   before, delivered or suppressed - the REMOVE comes out, right after what the earlier changes
+   produced. *)
+Theorem C10_fwd_remove_forwarded : forall cfg h m,
+  held_some h = true ->
+  m_kind m = 3 /\ m_val m = 0 /\ m_old m <> 0 /\ visible cfg (m_id m) (m_old m) = true ->
+  fst (fwd_in cfg h m) = Some m.
+Proof. exact fwd_remove_forwarded. Qed.
+Print Assumptions C10_fwd_remove_forwarded.
+
+Theorem C10_fwd_keeps_held_some :
+  (forall cfg seeds, forallb (fun m => negb (m_val m =? 0)) seeds = true -> held_some (held_init cfg seeds) = true) /\
+  (forall cfg h m, held_some h = true -> wf_msg m = true -> held_some (snd (fwd_in cfg h m)) = true) /\
+  (forall cfg F a F', held_some (fh F) = true -> inputs_wf F a -> fstep cfg F a = Some F' -> held_some (fh F') = true).
+Proof. split; [exact held_init_some|]. split; [exact fwd_in_keeps_held_some | exact fstep_keeps_held_some]. Qed.
+Print Assumptions C10_fwd_keeps_held_some.
+
+Theorem C10_fwd_history_remove_forwarded : forall cfg seeds pre m post,
+  forallb (fun s => negb (m_val s =? 0)) seeds = true ->
+  forallb wf_msg pre = true ->
+  m_kind m = 3 /\ m_val m = 0 /\ m_old m <> 0 /\ visible cfg (m_id m) (m_old m) = true ->
+  exists out1 out2,
+    fst (fwd_run cfg (held_init cfg seeds) (pre ++ m :: post)) = out1 ++ m :: out2 /\
+    out1 = fst (fwd_run cfg (held_init cfg seeds) pre).
+Proof. exact fwd_run_remove_forwarded. Qed.
+Print Assumptions C10_fwd_history_remove_forwarded.
+
+(* in the chain: the hand-over of such a REMOVE into an accepting forwarder (from the stage before
+   it, or from the bus) leaves the forwarder offering it, and the PullID behind it then returns and
+   cancels the whole chain, whose goroutines all end (C10_pipe_all_end) *)
+Theorem C10_pullid_ends_on_remove_filtered : forall cfg F m,
+  held_some (fh F) = true ->
+  m_kind m = 3 /\ m_val m = 0 /\ m_old m <> 0 /\ visible cfg (m_id m) (m_old m) = true ->
+  (forall i st, stage_at (fp F) i = Some st -> offer st = Some m -> stage_at (fp F) (S i) = Some (StFwd [] None) ->
+     exists F', fstep cfg F (PXfer i) = Some F' /\ stage_at (fp F') (S i) = Some (StFwd [] (Some m)) /\
+                held_some (fh F') = true) /\
+  (stage_at (fp F) 0 = Some (StFwd [] None) -> p_src_closed (fp F) = false ->
+     exists F', fstep cfg F (PSrc m) = Some F' /\ stage_at (fp F') 0 = Some (StFwd [] (Some m)) /\
+                held_some (fh F') = true) /\
+  (forall G i, stage_at (fp G) i = Some (StFwd [] (Some m)) -> stage_at (fp G) (S i) = Some (StPullID (m_id m) None) ->
+     exists G', fstep cfg G (PXfer i) = Some G' /\ stage_at (fp G') (S i) = Some StDone /\ p_cancel (fp G') = true).
+Proof.
+  intros cfg F m Hh Hm. split; [|split].
+  - intros i st H1 H2 H3. eapply fstep_remove_enters; eauto.
+  - intros H1 H2. eapply fstep_remove_enters_src; eauto.
+  - intros G i H1 H2. destruct Hm as (Hk & _). eapply fstep_pullid_ends_on_remove; eauto.
+Qed.
+Print Assumptions C10_pullid_ends_on_remove_filtered.
+
+(* ---- the same along EVERY schedule, with no hypothesis on the state ----
+   C10_filtered_chain_wf: from a fresh chain (stages as Pull / PullID start them, seeds carrying
+   values), along any schedule whose bus deliveries are well-formed changes (ADD without old value,
+   REMOVE without new one, everything else with both - what Collection's writes publish), every change
+   held anywhere in the chain is well-formed (mergeChanges keeps them so: merge_wf) and held holds
+   values only.
+   C10_remove_ends_pullid_on_every_schedule: hence, in any state such a schedule reaches, the REMOVE of
+   an item the subscription can see that is handed to the accepting forwarder (by the stage before it,
+   or by the bus) is offered on by the forwarder, and a PullID of that item behind it returns and
+   cancels the chain. *)
+Theorem C10_filtered_chain_wf : forall cfg stages seeds tr F,
+  forallb stage_wf stages = true -> forallb (fun s => negb (m_val s =? 0)) seeds = true ->
+  srcs_wf tr -> frun cfg (init_fpipe cfg stages seeds) tr = Some F -> chain_wf F = true.
+Proof.
+  intros cfg stages seeds tr F H1 H2 H3 H4.
+  exact (frun_chain_wf cfg tr _ F (init_chain_wf cfg stages seeds H1 H2) H3 H4).
+Qed.
+Print Assumptions C10_filtered_chain_wf.
+
+Theorem C10_remove_ends_pullid_on_every_schedule : forall cfg stages seeds tr F m,
+  forallb stage_wf stages = true -> forallb (fun s => negb (m_val s =? 0)) seeds = true ->
+  srcs_wf tr -> frun cfg (init_fpipe cfg stages seeds) tr = Some F ->
+  m_kind m = 3 /\ m_val m = 0 /\ m_old m <> 0 /\ visible cfg (m_id m) (m_old m) = true ->
+  (forall i st, stage_at (fp F) i = Some st -> offer st = Some m -> stage_at (fp F) (S i) = Some (StFwd [] None) ->
+     exists F', fstep cfg F (PXfer i) = Some F' /\ stage_at (fp F') (S i) = Some (StFwd [] (Some m)) /\
+       forall id, stage_at (fp F') (S (S i)) = Some (StPullID id None) -> m_id m = id ->
+         exists F'', fstep cfg F' (PXfer (S i)) = Some F'' /\
+                     stage_at (fp F'') (S (S i)) = Some StDone /\ p_cancel (fp F'') = true) /\
+  (stage_at (fp F) 0 = Some (StFwd [] None) -> p_src_closed (fp F) = false ->
+     exists F', fstep cfg F (PSrc m) = Some F' /\ stage_at (fp F') 0 = Some (StFwd [] (Some m)) /\
+       forall id, stage_at (fp F') 1 = Some (StPullID id None) -> m_id m = id ->
+         exists F'', fstep cfg F' (PXfer 0) = Some F'' /\
+                     stage_at (fp F'') 1 = Some StDone /\ p_cancel (fp F'') = true).
+Proof. exact remove_ends_pullid_on_every_schedule. Qed.
+Print Assumptions C10_remove_ends_pullid_on_every_schedule.
+
+(* the whole schedule of the nonvacuity example below satisfies the hypotheses *)
+Example C10_nonvacuous_schedule_hyps :
+  forallb stage_wf [StFwd [] None; StPullID 1 None] = true /\
+  srcs_wf [PSrc (mkMo 1 2 5 5); PSrc (mkMo 1 3 0 5); PXfer 0].
+Proof. split; [reflexivity|]. simpl. repeat split; reflexivity. Qed.
+
+(* ---- the filtered chain shuts down like the plain one ----
+   after the listener channel is closed: a complete schedule exists, every schedule is at most pmeasure
+   long (whatever the filters deliver, rewrite or suppress), and a schedule that cannot be continued has
+   ended every goroutine; the shape changesAfter needs is kept by every step *)
+Theorem C10_filtered_pipe_all_end : forall cfg F,
+  p_src_closed (fp F) = true -> p_cancel (fp F) = true -> after_ok (p_stages (fp F)) = true ->
+  (exists tr F', frun cfg F tr = Some F' /\ all_stages_done (fp F') = true /\ (List.length tr <= pmeasure (fp F))%nat) /\
+  (forall tr F', frun cfg F tr = Some F' -> (List.length tr + pmeasure (fp F') <= pmeasure (fp F))%nat) /\
+  ((forall i, fstep cfg F (PExit i) = None /\ fstep cfg F (PXfer i) = None) -> all_stages_done (fp F) = true).
+Proof. exact fpipe_all_end. Qed.
+Print Assumptions C10_filtered_pipe_all_end.
+
+Theorem C10_filtered_shape_invariant : forall cfg F a F',
+  after_ok (p_stages (fp F)) = true -> fstep cfg F a = Some F' -> after_ok (p_stages (fp F')) = true.
+Proof. exact fstep_after_ok. Qed.
+Print Assumptions C10_filtered_shape_invariant.
+
+(* without an equivalence and an include filter the forwarder hands on every change unchanged: the
+   filtered chain is the chain of Pipe.v *)
+Theorem C10_fwd_plain : forall h m, (m_kind m = 1 \/ m_kind m = 2 \/ m_kind m = 3 \/ m_kind m = 4) ->
+  fwd_in (mkFC EqNone IncNone) h m = (Some m, h).
+Proof. exact fwd_in_plain. Qed.
+Print Assumptions C10_fwd_plain.
+
+(* not vacuous, and the equivalence does suppress things: WithNoDuplicates, updates-only, PullID of the
+   existing item 1 (value 5): an UPDATE to the same value is suppressed, then the REMOVE goes through
+   and ends the PullID and the chain *)
+Example C10_nonvacuous_filtered_remove : exists F,
+  frun (mkFC EqExact IncNone) (mkFP (init_pipe [StFwd [] None; StPullID 1 None]) (held_init (mkFC EqExact IncNone) []))
+       [PSrc (mkMo 1 2 5 5); PSrc (mkMo 1 3 0 5); PXfer 0] = Some F /\
+  stage_at (fp F) 1 = Some StDone /\ p_cancel (fp F) = true /\ p_out (fp F) = [] /\ fh F = [].
+Proof. eexists. split; [vm_compute; reflexivity|]. repeat split; reflexivity. Qed.
+
+(* the variant "a REMOVE is skipped when nothing was sent for the id" loses exactly that REMOVE *)
+Theorem C10_held_step_skip_unsent_refuted :
+  fst (held_step cmp_exact [] (to_cc (mkMo 1 3 0 5))) = true /\
+  fst (held_step_skip_unsent cmp_exact [] (to_cc (mkMo 1 3 0 5))) = false.
+Proof. exact held_step_skip_unsent_refuted. Qed.
+Print Assumptions C10_held_step_skip_unsent_refuted.
+
+(* ---- the publishing turnstile is left on every way out of Set / Update / Delete ----
+   For every reachable configuration of the composed model WITH the turnstile: the commits in
+   (rdone, rcommits] are exactly those some writer still carries; the writer inside bus.Send is the
+   one commit rdone+1; and a writer whose Send has returned - delivered, listener cancelled, or given
+   up on its own send context (Value.Set's 5 s budget) - returns, the counter moves to its commit and
+   the writer of the next commit, if it waits at the turnstile, can publish at once. *)
+Theorem C10_res_turnstile_pairing : forall n C, rreach true n C ->
+  (rdone C <= rcommits C)%nat /\
+  (forall m, (rdone C < m)%nat -> (m <= rcommits C)%nat ->
+     exists w p, nth_error (rw C) w = Some p /\ commit_of p = Some m) /\
+  (forall w p m, nth_error (rw C) w = Some p -> commit_of p = Some m -> (rdone C < m)%nat /\ (m <= rcommits C)%nat) /\
+  (forall w p m, nth_error (rw C) w = Some p -> in_send p = true -> commit_of p = Some m -> m = S (rdone C)) /\
+  (forall w p, nth_error (rw C) w = Some p -> in_send p = true -> sender_idle (rb C) w = true ->
+     exists C' m, rstep true C (RReturn w) = Some C' /\ commit_of p = Some m /\ rdone C' = m /\
+       forall u q, nth_error (rw C') u = Some q -> commit_of q = Some (S m) -> in_send q = false ->
+         rstep true C' (RPublish u) <> None).
+Proof. exact turnstile_pairing. Qed.
+Print Assumptions C10_res_turnstile_pairing.
+
+(* the leave placed after the give-up return (rstep_leaky): every subscriber cancelled, a call in
+   progress, and no goroutine of the library can ever step again - against
+   C10_res_stuck_only_backpressure / C10_res_after_cancel_all_proceeds, which hold of the real model *)
+Theorem C10_res_leave_skipped_on_giveup_refuted : exists C,
+  rrun_leaky (rinit 2) giveup_trace = Some C /\
+  all_cancelled C = true /\ busy C = true /\
+  (forall a, autonomous a = true -> rstep_leaky C a = None).
+Proof. exact leave_skipped_on_giveup_refuted. Qed.
+Print Assumptions C10_res_leave_skipped_on_giveup_refuted.
+
+Example C10_nonvacuous_giveup_then_publish : exists C C',
+  rrun true (rinit 2) giveup_trace = Some C /\ all_cancelled C = true /\
+  rstep true C (RPublish 1) = Some C'.
+Proof. exact giveup_then_next_writer_publishes. Qed.
